@@ -21,6 +21,11 @@ P = {
          "both maps are inserted into / deleted from on the same paths and empty per-phantom maps are removed; the sweep selects a record iff (unused && age>T_unused) || age>T_active, exhaustively over all valuations of its atoms; T_unused=10 min and T_active=6 h with no other writer; activation flips the looked-up record; a ticker loop sweeps. "
          "These are history-independent structural conditions; set-level behaviour over concrete histories and wall-clock timing are not decided.",
          "4/C08"),
+ "C18": (True, "finite predicate abstraction of the Lookup conditions, guard dominance (polarity, nil tests, sibling wiring), lockset guarded-by, must-pass pairing (go/ssa)",
+         "Decides: each cache Lookup answers true iff the key is present and its age is below the expiration (all valuations); probe results go to the cache of their verdict and hits return their cache's verdict; the probe is reached only on a double miss; "
+         "Init wires each cache only from its own duration/capacity setting and passes the capacity it tested; every call through an optional cache is dominated by a nil test of the same field; cache maps only under their mutex; LRU inserts are registered, evictions delete under the lock, LRU sized by the configured capacity. "
+         "History-independent structural conditions of 'never stale, never flipped, bounded'; behaviour over concrete histories and the LRU library itself are not decided.",
+         "4/C18"),
  "C09": (True, "lockset guarded-by with helper summaries, channel-operation shape rules, lock-order graph, blocking reachability (go/ssa)",
          "Decides for every schedule: the registration maps/flags are only touched under the registration mutex (write lock for writes), the New announcement has a single locked call site dominated by !Valid with Valid=true stored first, "
          "hand-off sends are non-blocking with counted drops and a fixed worker pool, every blocking wait in the pipeline includes the stop signal, lock order is acyclic and nothing blocking runs under the registration lock except the reviewed Redis publish. "
